@@ -462,6 +462,39 @@ func scalarFields(rec *Type) bool {
 	return true
 }
 
+// recordCollection: where / union / flatten over a visible list or set of records.
+func (g *rgen) recordCollection(bc *bodyCtx, bd *binding) Expr {
+	E := bd.T.Elem
+	ve := func(v string) Expr {
+		if v == "" {
+			return &Name{"."}
+		}
+		return &Name{v}
+	}
+	switch g.r.Intn(3) {
+	case 0:
+		if bd.T.K == KSet && scalarFields(E) {
+			others := g.names(bc, bd.T)
+			return &Bin{"BITOR", g.use(bd), g.use(others[g.r.Intn(len(others))])}
+		}
+	case 1:
+		var scalars []string
+		for _, f := range E.Fields {
+			if f.T != nil && f.T.isScalar() {
+				scalars = append(scalars, f.Name)
+			}
+		}
+		if len(scalars) > 0 {
+			v := g.exprVar(bc)
+			return &RelOp{"FLATTEN", g.use(bd), v, &Attr{ve(v), scalars[g.r.Intn(len(scalars))]}}
+		}
+	}
+	v := g.exprVar(bc)
+	var pred Expr
+	g.with(bc, v, E, func() { pred = g.expr(bc, tBool, 2) })
+	return &RelOp{"WHERE", g.use(bd), v, pred}
+}
+
 // ---- statements ----
 
 func (g *rgen) randType() *Type {
@@ -529,6 +562,10 @@ func (g *rgen) transformStmt(bc *bodyCtx, d int) (*Transform, *Type) {
 	} else {
 		argT = []*Type{tList(tInt), tList(tInt), tSet(tInt), tList(tStr), tSet(tStr), tList(tList(tInt)), tInt, tStr}[g.r.Intn(8)]
 		arg = g.expr(bc, argT, minInt(d, 1))
+		if n, isName := arg.(*Name); isName && n.N == "." {
+			// a written argument "." means "no argument" to the evaluator: not generated
+			arg, _ = literal(g.value(argT, false))
+		}
 	}
 	t := &Transform{Arg: arg, TName: "Rec"}
 	var elemT *Type
@@ -834,9 +871,16 @@ func randomProgram(r *fw.Rand) (*Program, *builder) {
 				bc.out(o, &Stmt{Name: o, E: call})
 			}
 		default:
-			// a map filtered by where, exported whole
+			// something derived from a visible map or collection of records, exported whole
 			maps := g.visibleWhere(bc, func(t *Type) bool { return t.K == KMap && !t.KV && t.dictElem() != nil })
-			if len(maps) > 0 {
+			recs := g.visibleWhere(bc, func(t *Type) bool { return t.isColl() && t.Elem.K == KMap && !t.Elem.KV })
+			switch {
+			case len(recs) > 0 && (len(maps) == 0 || r.Chance(2, 3)):
+				if e := g.recordCollection(bc, recs[r.Intn(len(recs))]); e != nil {
+					o := b.fresh("o")
+					bc.out(o, &Stmt{Name: o, E: e})
+				}
+			case len(maps) > 0:
 				o := b.fresh("o")
 				bc.out(o, &Stmt{Name: o, E: g.mapWhere(bc, maps[r.Intn(len(maps))])})
 			}
